@@ -69,8 +69,11 @@ def outcome(fn, *a, timeout=None, **kw):
     """('value', v) | ('lib', ExcName, msg) | ('foreign', ExcName, msg) | ('timeout',)
     The product always gets the same stack room (STACK_ROOM frames below the call), whatever called the harness: whether a
     deep formula hits the recursion limit must not depend on search vs replay."""
+    import threading
+    main = threading.current_thread() is threading.main_thread()
     old_limit = sys.getrecursionlimit()
-    sys.setrecursionlimit(_stack_depth() + STACK_ROOM)
+    if main:    # the limit is process-wide: worker threads of the C09 lane leave it alone
+        sys.setrecursionlimit(_stack_depth() + STACK_ROOM)
     try:
         with alarm(timeout or CALL_TIMEOUT):
             return ('value', fn(*a, **kw))
@@ -83,7 +86,8 @@ def outcome(fn, *a, timeout=None, **kw):
     except BaseException as e:  # noqa
         return ('foreign', type(e).__name__, str(e)[:300])
     finally:
-        sys.setrecursionlimit(old_limit)
+        if main:
+            sys.setrecursionlimit(old_limit)
 
 
 def enc(v):
